@@ -303,3 +303,36 @@ def run(F, R, tier):
         if not v:
             continue
         R.ob("C08-A", "%s accepts the same attribute key forms as its siblings" % k, v == ref, "%s accepts %s, siblings %s" % (k, sorted(v), sorted(ref)), "src/ast/dep.rs")
+
+    # ---------------- later (round 6) ---------------------------------------
+    # C08-U: specifier text of a template-literal argument is the *cooked*
+    # (unescaped) text of each quasi, never the raw source slice
+    n_cooked = 0
+    for b in F.bodies:
+        if b["file"] != "src/ast/dep.rs":
+            continue
+        for n in b["_nodes"]:
+            if n.get("k") == "Field" and (n.get("adt") or "").endswith("swc_ecma_ast::TplElement"):
+                if n["field"] == "cooked":
+                    n_cooked += 1
+                elif n["field"] == "raw":
+                    R.violation("C08-U", "template quasi read through `raw`", "the dependency collector reads `TplElement::raw` (the source slice, escapes not processed): a template-literal import()/require() argument containing an escape (`\\u00e9`, `\\x61`, line continuation, CRLF) is reported with a different specifier text than the same specifier written as a string literal", where(n), key="C08|C08-U|tpl-raw|%s" % b["path"].split("::")[-1])
+            if n.get("k") == "Field" and (n.get("adt") or "").endswith("swc_ecma_ast::Str") and n["field"] == "raw":
+                R.violation("C08-U", "string literal read through `raw`", "the dependency collector reads `Str::raw` (quotes and escapes unprocessed) instead of `value`", where(n), key="C08|C08-U|str-raw|%s" % b["path"].split("::")[-1])
+    R.floor("C08-U cooked reads of template quasis in the dependency collector", n_cooked, 2)
+    R.ob("C08-U", "template-literal arguments are reported with their cooked text", n_cooked >= 2, "no `cooked` read left")
+
+    # C08-I: a position lookup compares whole (line, character) positions
+    # lexicographically: Position derives PartialOrd with `line` declared before
+    # `character`, and PositionRange::includes compares Position values, never
+    # the components on their own
+    pos = F.adt("graph::Position")
+    flds = [f["name"] for f in pos["variants"][0]["fields"]]
+    derived_ord = any((i if isinstance(i, str) else i.get("trait")) == "std::cmp::PartialOrd" for i in pos["impls"])
+    R.ob("C08-I", "Position orders lexicographically by (line, character)", flds[:2] == ["line", "character"] and derived_ord, "fields %s / PartialOrd %s" % (flds, derived_ord), pos["file"])
+    inc = F.body("graph::PositionRange::includes")
+    comp = [n for n in inc["_nodes"] if (n.get("k") == "Field" and n.get("adt") == "graph::Position" and n["field"] in ("line", "character"))]
+    cmps = [n for n in inc["_nodes"] if n.get("k") == "Binary" and n["op"] in (">=", "<=", ">", "<") and ty_is(F, n["l"], "graph::Position") and ty_is(F, n["r"], "graph::Position")]
+    R.ob("C08-I", "PositionRange::includes compares whole positions against both ends", not comp and len(cmps) >= 2 and any(mentions_field(c, "start") for c in cmps) and any(mentions_field(c, "end") for c in cmps),
+         "PositionRange::includes tests line and character separately (%d component reads, %d whole-position comparisons): a specifier range that spans a line break no longer contains the positions inside it, so Dependency::includes / position lookups miss it" % (len(comp), len(cmps)), inc["file"],
+         key="C08|C08-I|includes-componentwise")
